@@ -16,6 +16,16 @@ def wh(span):
     return "%s:%d:%d" % (span["file"], span["line"], span["col"])
 
 
+def _outside(an, st, data, off, tail):
+    """the facts of the outcome imply that the offset does not lie inside the table: the tail data.get(off..) does not exist, or
+    len(data) <= off (which an empty table implies for every offset)"""
+    from ..prover import Prover
+    tailcall = tail.args[0]
+    no_tail = any(f[0] == "var" and f[2] == "None" and (f[1] is tailcall or (isinstance(f[1], Term) and f[1].op == "call" and f[1].args[0] == "[T]::get"
+                                                                                 and f[1].args[2][0] is data)) for f in st.facts)
+    return no_tail or Prover(an).le(T.length(data), off, st.facts)
+
+
 def get_raw_loop(F, rep, fn, an, w, tail):
     """get_raw written as a scan: `for (i, &b) in tail.iter().enumerate() { if b == 0 { return Ok(&tail[..i]) } } Err(MissingNul)`"""
     from ..hashrules import loop_exit_controls
@@ -70,6 +80,8 @@ def get_raw_loop(F, rep, fn, an, w, tail):
         elif t.op == "agg" and t.args[3] == "Err":
             txt = pp(t)
             kinds.add("nul" if "StringTableMissingNul" in txt else "off" if "BadOffset" in txt else txt[:40])
+            if "BadOffset" in txt and not _outside(an, st, tail.args[0].args[2][0], T.param(2), tail):
+                msgs.append("an offset is refused with BadOffset on a path whose conditions do not imply that it lies outside the table")
     if n_ok != 1 or kinds != {"nul", "off"}:
         msgs.append("%d success outcomes, error kinds %s" % (n_ok, sorted(kinds)))
     rep.require(not msgs, "strtab", "get_raw:search", w, "forward scan for the first NUL of the tail; the string is the bytes before it (loop form)",
@@ -171,6 +183,11 @@ def run(ctx, rep):
                             "StringTableMissingNul exactly when the search finds no NUL", "StringTableMissingNul is returned on a path where the search result is not None")
             elif "BadOffset" in txt:
                 kinds.add("off")
+                # completeness: the offset is refused only when it does not lie inside the table (the tail does not exist, or the
+                # facts of the path imply len <= offset, which an empty table does for every offset)
+                rep.require(_outside(an, st, data, p2, tail), "strtab", "get_raw:bad-offset", w, "BadOffset only for an offset outside the table",
+                            "get_raw refuses an offset with BadOffset on a path whose conditions do not imply that the offset lies outside the table: "
+                            "a string that is in the table cannot be looked up")
             else:
                 rep.bad("strtab", "get_raw:error", w, "UNRECOGNISED error outcome %s" % txt[:120])
         else:
